@@ -92,6 +92,11 @@ Definition inv_step_b (s : st) : bool :=
   forallb (fun r => (negb (sdef r) || sstate_eqb (sst r) SPending) &&
                     ((shold r =? 0) || sstate_eqb (sst r) SRunning)) (steps s).
 
+(* I5b without the holding clause (the holding clause needs the request protocol: hold() is only
+   ever called for a RUNNING step) *)
+Definition inv_deferred_b (s : st) : bool :=
+  forallb (fun r => (negb (sdef r) || sstate_eqb (sst r) SPending) && true) (steps s).
+
 (* I5c: a RUNNING step has no stored hash *)
 Definition inv_running_nohash_b (s : st) : bool :=
   forallb (fun r => negb (sstate_eqb (sst r) SRunning) || negb (has_hash (sl r) s)) (steps s).
@@ -110,6 +115,11 @@ Definition inv_succeeded_b (s : st) : bool :=
 Definition inv_b (s : st) : bool :=
   inv_nodes_b s && inv_local_b s && inv_reach_b s && inv_rows_b s && inv_deps_b s &&
   inv_acyclic_b s && inv_undeclared_b s && inv_fhash_b s && inv_step_b s && inv_nocreator_b s.
+
+(* everything except "holding > 0 -> RUNNING": holds for every operation sequence whatsoever *)
+Definition inv_core_b (s : st) : bool :=
+  inv_nodes_b s && inv_local_b s && inv_reach_b s && inv_rows_b s && inv_deps_b s &&
+  inv_acyclic_b s && inv_undeclared_b s && inv_fhash_b s && inv_deferred_b s && inv_nocreator_b s.
 
 Definition inv_report (s : st) : list bool :=
   [inv_nodes_b s; inv_local_b s; inv_reach_b s; inv_rows_b s; inv_deps_b s; inv_acyclic_b s;
